@@ -30,7 +30,8 @@ NPM_REQS = [b"^1.0.0", b"~1.1.0", b">=1.0.0 <2.0.0", b"*", b"1.x", b"1.0.0 - 1.2
 NPM_VERS = [b"0.9.0", b"1.0.0", b"1.1.0", b"1.2.0", b"2.0.0", b"2.1.0-beta.1"]
 MVN_REQS = [b"1.0.0", b"1.1.0", b"[1.0.0,2.0.0)", b"[1.1.0,)", b"(,1.2.0]", b"2.0.0", b"[2.0.0]", b"[1.0.0,1.1.0],[2.0.0,)", b"1.2.0"]
 MVN_VERS = [b"0.9.0", b"1.0.0", b"1.1.0", b"1.2.0", b"2.0.0", b"2.1.0-beta-1"]
-PY_REQS = [b">=1.0", b"~=1.1", b"==1.*", b"<2", b">=1.0,<1.2", b"!=1.1.0", b"", b"==2.0.0", b">=2", b">1.0.0", b"<=1.1.0"]
+PY_REQS = [b">=1.0", b"~=1.1", b"==1.*", b"<2", b">=1.0,<1.2", b"!=1.1.0", b"", b"==2.0.0", b">=2", b">1.0.0", b"<=1.1.0",
+           b">=2.1.0b1", b"<2.1.0b1", b">=1.0,<2.1.0b1", b">=0.9.0", b"<=2.1.0b1", b">=1.2.0rc1"]
 PY_VERS = [b"0.9.0", b"1.0.0", b"1.1.0", b"1.2.0", b"2.0.0", b"2.1.0b1"]
 PY_MARKERS = [b"python_version >= '3.0'", b"python_version < '3.0'", b"os_name == 'nt'", b"sys_platform == 'linux'", b"extra == 'x'", b"os_name != 'nt' and python_version >= '2.7'"]
 
@@ -74,8 +75,9 @@ def universe(rng, sysr):
                         t.append([-2, b""])
                     elif q < 0.3:
                         t.append([3, rng.choice([b"provided", b"runtime"])])
-                    elif q < 0.4:
-                        t.append([9, rng.choice([b"*:*", b"g:" + rng.choice([b"a", b"b", b"c"])])])
+                    elif q < 0.55:
+                        ex = rng.sample([b"g:a", b"g:b", b"g:c", b"g:d", b"g:e", b"*:*", b"g:*"], rng.randrange(1, 3))
+                        t.append([9, b"|".join(ex)])
                 else:
                     if q < 0.3:
                         t.append([10, rng.choice(PY_MARKERS)])
@@ -83,6 +85,18 @@ def universe(rng, sysr):
             vs.append([ver, attrs, deps])
         pk.append([n] + vs)
     roots = []
+    if sysr == 1 and len(pk) >= 6 and rng.random() < 0.4:
+        # exclusion layering: R1 -[excl X]-> A -[excl Y]-> B -> X, Y   and   R2 -[excl Y]-> B
+        # (the same exclusion text reached with and without an excluding ancestor, on one resolver)
+        R1, R2, A, B, X, Y = rng.sample(pk, 6)
+        v = lambda P: P[1][0]
+        def dep(P, excl=None):
+            return [[[9, excl]] if excl else [], P[0], v(P)]
+        R1[1][2][:] = [dep(A, X[0])]
+        A[1][2][:] = [dep(B, Y[0])]
+        B[1][2][:] = [dep(X), dep(Y)]
+        R2[1][2][:] = [dep(B, Y[0])]
+        roots += [[R1[0], v(R1)], [R2[0], v(R2)], [R1[0], v(R1)]]
     if rng.random() < 0.6:
         # several versions of ONE package resolved one after the other on the same resolver, with a
         # dependency cycle leading back to that package (resolver-level caches must not leak between roots)
@@ -101,7 +115,7 @@ def universe(rng, sysr):
                         ve[2].append([[], Q[0], wide])
             for ve in P[1:4]:
                 roots.append([P[0], ve[0]])
-    for _ in range(rng.randrange(1, 3)):
+    for _ in range(rng.randrange(2, 5)):
         p = rng.choice(pk)
         roots.append([p[0], rng.choice(p[1:])[0]])
     return [sysr, pk, roots, [rng.randrange(1 << 30) for _ in range(24)], 16]
